@@ -418,6 +418,12 @@ pub fn with_deadline<T: Send + 'static, F: FnOnce() -> T + Send + 'static>(
             Err(Fault::CallerPanic(rec))
         }
         Err(()) => {
+            if let Ok(dir) = std::env::var("VERIF_HANG_DUMP") {
+                // developer aid: thread stacks of this process at the moment a call is given up
+                let pid = std::process::id();
+                let out = format!("{}/hang-{}-{}.txt", dir, pid, what.replace(|c: char| !c.is_ascii_alphanumeric(), "_"));
+                let _ = std::process::Command::new("gdb").args(["-p", &pid.to_string(), "-batch", "-ex", "thread apply all bt 14"]).stdout(std::fs::File::create(&out).unwrap()).stderr(std::process::Stdio::null()).status();
+            }
             // Quiescence test: is anything still making progress?
             let t0 = process_cpu_ticks();
             std::thread::sleep(Duration::from_millis(800));
